@@ -141,6 +141,33 @@ def run_part(run, fails, stats):
             r.dump()
         finally:
             r.stop()
+    # directed: expiry must not depend on what the process remembers — a count learned before a restart and not refreshed for
+    # three days is dropped at the first confirmation after the restart
+    r = S.HistoryRunner(run, bindir, dic, wd, "hx")
+    runners.append(r)
+    if r.start():
+        try:
+            t0 = 50_000_000
+            res = r.conv("normal", "くるまで")
+            if res[0] == "ok" and res[1]["candidates"]:
+                r.confirm(len(r.sids) - 1, "0", t0)
+                stats["confirmations"] += 1
+            r.dump()
+            if r.restart():
+                res = r.conv("normal", "やまだ")
+                if res[0] == "ok" and res[1]["candidates"]:
+                    r.confirm(len(r.sids) - 1, "0", t0 + EXP + 1)
+                    stats["confirmations"] += 1
+                d = r.srv.dump()
+                stats["expiry_probes"] += 1
+                stale = [(c, w, n) for c, w, n, last in (d or {"frequencies": []})["frequencies"] if w == "車"]
+                if stale:
+                    fails.append(("kept-stale", {"kind": "kept-stale", "after": "restart"},
+                                  {"history": "confirm 車 at t0, save, restart, confirm 山田 at t0 + 3 days + 1 ms",
+                                   "frequencies": d and d["frequencies"]}))
+                r.dump()
+        finally:
+            r.stop()
     dis = S.compare_with_model(run, runners)
     run.cov["server_model_disagreements"] = len(dis)
     if dis and not fails:
